@@ -235,6 +235,9 @@ func scenC04(w *vsim.World, spec *vsim.Spec) {
 		}
 	}
 	jumpBudget := 3
+	// "in flight for a whole TTL" is judged with the small jumps of the run taken off: the copy a stalled
+	// writer races with may itself carry a timestamp that is older than its appearance by such a jump
+	smallJumps := time.Duration(0)
 	vsimfs.Director = func(w *vsim.World, s *vsimfs.Step) error {
 		if s.Node != node.name {
 			return nil
@@ -246,6 +249,9 @@ func scenC04(w *vsim.World, spec *vsim.Spec) {
 			if j > 0 {
 				w.Fault("clock-jump")
 				w.Advance(j)
+				if j < ttl/2 {
+					smallJumps += j
+				}
 			}
 		}
 		root := s.Task
@@ -264,7 +270,7 @@ func scenC04(w *vsim.World, spec *vsim.Spec) {
 		if s.Op == "copy-write" {
 			lastCopyWrite[root] = time.Now()
 		}
-		if s.Op == "rename" && strings.Contains(s.Path, "/tmp") && time.Since(taskStart[root]) >= ttl {
+		if s.Op == "rename" && strings.Contains(s.Path, "/tmp") && time.Since(taskStart[root]) >= ttl-smallJumps {
 			base := filepath.Base(s.Path2)
 			if len(base) == 32 {
 				stalledWriter[base] = true
@@ -272,7 +278,7 @@ func scenC04(w *vsim.World, spec *vsim.Spec) {
 				w.Probe("writer-in-flight-for-a-whole-ttl")
 			}
 		}
-		if s.Op == "chtimes" && time.Since(taskStart[root]) >= ttl {
+		if s.Op == "chtimes" && time.Since(taskStart[root]) >= ttl-smallJumps {
 			// a Touch (TOUCH, or PUT of an existing copy) that read the clock a whole TTL ago applies that timestamp now
 			if base := filepath.Base(s.Path); len(base) == 32 {
 				stalledWriter[base] = true
